@@ -23,7 +23,7 @@ def determinism(chk, seed):
         bins["rddetector"] = engine_toolsim.build(chk, sc, repo, "rddetector")
         prepo, _ = chk.prepare(sc, "preempt")
         bins["libsim"] = chk.build_harness(sc, prepo, "libsim")
-        plans = [("C08", "detectsim"), ("C09", "detectsim"), ("C10", "detectsim"), ("C14", "detectsim"), ("C20", "rdgen"), ("C13", "rddetector"), ("C18", "libsim")]
+        plans = [("C07", "detectsim"), ("C11", "detectsim"), ("C08", "detectsim"), ("C09", "detectsim"), ("C10", "detectsim"), ("C14", "detectsim"), ("C20", "rdgen"), ("C13", "rddetector"), ("C18", "libsim")]
         reps = [(1, 0), (1, 1), (4, 0), (4, 1), (16, 0), (16, 1)]
         procs = []
         for prop, eng in plans:
@@ -32,7 +32,7 @@ def determinism(chk, seed):
                     wd = os.path.join(sc.dir, "det", "%s-%d-%d-%d" % (prop, part, gmp, rep))
                     os.makedirs(wd)
                     out = os.path.join(wd, "out.json")
-                    job = _job(prop, "quick", seed, part, 16, out, {"max_cases": 10 if eng != "rddetector" else 6})
+                    job = _job(prop, "quick", seed, part, 16, out, {"max_cases": 16 if eng != "rddetector" else 6})
                     jp = os.path.join(wd, "job.json")
                     json.dump(job, open(jp, "w"))
                     env = dict(chk.ENV)
